@@ -59,6 +59,20 @@ def instances(tier, seed):
     for (ql, qr, qt) in [(((0, 0), (1, 0)), ((1, 1), (0, 1)), (1, 1)), (((0, 1), (0, 1)), ((1, 0), (0, 0)), (1, 1))]:
         add(mode="qr", m=2, n=2, ql=ql, qr=qr, qt=qt, system="L", full=False)
         add(mode="svd", m=2, n=2, ql=ql, qr=qr, qt=qt, system="L", full=False)
+    # two-component labels, every pattern over {0,1}^2 on 2x2 (one-sided sectors whose missing partner shares a component
+    # with a label on the other side included): eigh fully, svd/qr on a strided subset
+    vals2 = [(0, 0), (1, 0), (0, 1), (1, 1)]
+    k2 = 0
+    for ql in itertools.product(vals2, repeat=2):
+        for qr in itertools.product(vals2, repeat=2):
+            for qt in ((1, 1), (1, 0)):
+                add(mode="eigh", m=2, n=2, ql=ql, qr=qr, qt=qt, system="L", full=False)
+                add(mode="eigh", m=2, n=2, ql=ql, qr=qr, qt=qt, system="R", full=False)
+                k2 += 1
+                if k2 % (7 if tier == "quick" else 2) == seed % 2:
+                    add(mode="svd", m=2, n=2, ql=ql, qr=qr, qt=qt, system="L", full=False)
+                    add(mode="qr", m=2, n=2, ql=ql, qr=qr, qt=qt, system="R", full=False)
+                    add(mode="svd", m=2, n=2, ql=ql, qr=qr, qt=qt, system="L", full=True)
     for kw in krylov_instances(tier):
         out.append(kw)
     return out
@@ -134,6 +148,8 @@ def make_harness(P):
                         same = _same_label(ctx, lab[row], newqn[col])
                         conds.append(ctx.any([same, ctx.eq(u[row, col], 0)]))
                 ctx.check("eigh: column support matches its label", ctx.all(conds))
+                ctx.check("eigh: every returned label has a partner sector on the other side (nl + nr = qntot)",
+                          ctx.all([_has_partner(ctx, np.asarray(newqn[col]).reshape(-1), comp, qt) for col in range(k)]))
                 # U diag(s^2) U^T restores the label-diagonal blocks of dm whose complementary sector exists
                 s2 = np.array([x * x for x in s], dtype=object if ctx.symbolic else float)
                 rec = (u * s2).dot(u.T)
@@ -144,7 +160,8 @@ def make_harness(P):
                         # eigenvalues clipped at 0: equality is claimed for positive semi-definite blocks only; here we
                         # state it on the branch where no clipping happened (s^2 = w), which the harness detects by s*s == w
                         conds.append(ctx.any([ctx.neg(blk), ctx.eq(rec[i, j], dm[i, j]), ctx.neg(P_noclip(ctx, c if ctx.symbolic else None))]))
-                ctx.check("eigh: restores the allowed blocks (no clipping branch)", ctx.all(conds))
+                        conds.append(ctx.any([blk, ctx.eq(rec[i, j], 0)]))
+                ctx.check("eigh: restores the allowed blocks and nothing else (no clipping branch)", ctx.all(conds))
                 return
             A = ctx.array("A", (m, n), "real")
             qr_mode = mode == "qr"
@@ -265,6 +282,8 @@ def make_krylov_harness(P):
         A = raw + raw.T
         v0 = ctx.array("v", (n,), "real")
         ctx.lemma_sos(v0)
+        if ctx.symbolic:
+            ctx.explorer.div_mode = "fork"
         calls = []
         saved = kr._expm_krylov
         saved_np, saved_xp = kr.np, kr.xp
